@@ -55,6 +55,7 @@ func c19(c *Ctx) {
 	c19ToAddr(c)
 	c19Run(c)
 	c19RangedListUntouched(c)
+	c19PortOrderPreserved(c)
 	// a datagram is looked up under the local address of the socket it arrived on (shared with C08)
 	c08ListenerOwnVariables(c)
 	c19ServiceEntriesComplete(c)
